@@ -306,6 +306,7 @@ func runC05(c *harness.Ctx, idx int) {
 		m.try("random", in)
 	}
 	c.Count("inputs", int64(m.inputs))
+	c.Count("_evaluations", int64(m.inputs))
 	c.Count("accepted", int64(m.accepted))
 	c.Count("rejected", int64(m.rejected))
 	c.Count("lenient", int64(m.lenient))
